@@ -158,3 +158,24 @@ def rx_obligations(prop="C15"):
     contline = SP.seq(SP.lit("    "), SP.star(SP.notcls(SP.chars("\n"))))
     out.append(more.covers(f"{prop}.B.META_MORE_RE.covers_continuation_lines", contline, "every line indented by four or more blanks is a continuation line"))
     return out
+
+
+def delimiter_obligations(prop="C03"):
+    """Engine B: the optional YAML-style delimiter lines of a metadata block (`---` before, `---` / `...` after) stand alone.  A documentation line that merely begins with
+    these characters and goes on with text is text: were it taken for a delimiter it would be dropped, and its words with it (C03: every word of the comment is rendered)."""
+    from harness import loader
+    from revc.oblig import RX
+    from revc import spec as SP
+    ut = loader.import_repo("ford.utils")
+    anych = SP.notcls(SP.chars("\n"))
+    # anything str.isspace() / \s does not count as white space (the separators \x1c-\x1f do count, for Python)
+    ink = SP.notcls(SP.chars(" \t\n\r\x0b\x0c\x1c\x1d\x1e\x1f"))
+    out = []
+    for name, heads in (("BEGIN_RE", ["---"]), ("END_RE", ["---", "..."])):
+        rx = RX(f"ford.utils.{name}", getattr(ut, name), "match", prop)
+        for h in heads:
+            tag = "dashes" if h == "---" else "dots"
+            texty = SP.seq(SP.lit(h), SP.star(anych), ink, SP.star(anych))
+            out.append(rx.excludes(f"{prop}.B.{name}.{tag}_followed_by_text_is_no_delimiter", texty, f"a line `{h}` followed by anything but white space is not a delimiter line"))
+            out.append(rx.covers(f"{prop}.B.{name}.bare_{tag}_is_a_delimiter", SP.seq(SP.lit(h), SP.star(SP.cls(SP.chars(" \t")))), f"`{h}` alone (trailing blanks allowed) is a delimiter line"))
+    return out
